@@ -88,6 +88,8 @@ def spell(t, spelling):
         return pd.Timestamp(t)
     if spelling == 'datetime64':
         return np.datetime64(t)
+    if spelling == 'offset':      # dt(n) for a small int n is today's midnight + n days: T = today is spelled 0 (a falsy asof)
+        return int((t - datetime.datetime.combine(datetime.date.today(), datetime.time())).days)
     raise ValueError(spelling)
 
 
@@ -413,6 +415,13 @@ def generate(rng, tier):
     yield dict(tag='special-frame-one-column', ordered=True, lines=[
         fmerge_line(0, [(0, [1]), (1, [None])]), fmerge_line(1, [(0, [1]), (1, [2])]), fmerge_line(1, [(0, [None]), (1, [3])]),
         fread_line(None, -1), fread_line(None, 0), freads_line(None, 'last', 1)])
+    # read times spelled as day offsets from today (dt(0) = today, dt(-1) = yesterday ...): versions stamped around the real today,
+    # so that T = today is the integer 0 - a read time that is falsy (seeded C17-q3: `elif asof:` for `elif asof is not None:`)
+    k0 = (datetime.datetime.combine(datetime.date.today(), datetime.time()) - S0).days
+    for what in (-1, 0):
+        yield dict(tag='special-asof-offset-from-today', ordered=True, lines=[
+            '(bitemp merge %s %s)' % (enc(stamp(k0 + d)), enc_ts(pairs)) for d, pairs in ((-2, [(0, 1), (1, 1)]), (0, [(0, 2)]), (2, [(0, 3), (1, 3)]))] +
+            [read_line(k0 + d, what, 'offset') for d in (-3, -2, -1, 0, 1, 2, 3)])
     # the store that holds two consecutive equal values (no_consecutive_repeats_fails)
     yield dict(tag='special-consecutive-repeat', ordered=True, lines=[
         merge_line(0, [(0, 3)]), merge_line(1, [(0, 5)]), merge_line(2, [(0, 6)]), merge_line(2, [(0, 5)]),
